@@ -173,6 +173,11 @@ var c07dec = gen.Register(&gen.Check[caseC07dec]{
 		}
 		max := new(big.Int).Sub(new(big.Int).Lsh(big.NewInt(1), 256), big.NewInt(1))
 		var out []caseC07dec
+		// exhaustive word-wise neighbourhood of n: every 64-bit limb from {n_i-1, n_i, n_i+1, 0, ff..ff} (625 strings) and
+		// every 32-bit word from {w-1, w, w+1} (6561 strings)
+		for _, v := range append(gen.WordProducts(ref.N, 64, gen.Neighbours5), gen.WordProducts(ref.N, 32, gen.Neighbours3)...) {
+			out = append(out, mk(ref.Bytes32(v), "decode"))
+		}
 		for _, via := range []string{"decode", "unmarshal", "hex"} {
 			out = append(out, mk(nil, via), mk(ref.Bytes32(nm1), via), mk(ref.Bytes32(ref.N), via),
 				mk(ref.Bytes32(new(big.Int).Add(ref.N, bigOne)), via), mk(ref.Bytes32(max), via), mk(ref.Bytes32(new(big.Int)), via),
